@@ -108,6 +108,10 @@ func (ex *Exec) binop(op token.Token, t types.Type, x, y Value) Value {
 			}
 			if op == token.QUO {
 				if signed {
+					if yv.IsConst() && yv.w == 64 && yv.SVal() > 1 {
+						// exact multiples cancel syntactically (time arithmetic ns<->ms); see divConst
+						return ex.divConst(xv, yv.SVal())
+					}
 					return tc.Bin(OSDiv, xv, yv)
 				}
 				return tc.Bin(OUDiv, xv, yv)
